@@ -1,15 +1,15 @@
 (* C35 — property theorems only.  [decode] is protobuf's Unmarshal (third party): any function
-   that names only command types the model knows. *)
-From Coq Require Import List String NArith.
+   ANY function from payload bytes to an optional command whose type is ANY integer. *)
+From Coq Require Import List String NArith ZArith.
 From RQ Require Import Model.C19 Model.C18 Model.C35 Proofs.C18 Proofs.C35.
 Import ListNotations.
 Open Scope N_scope.
 
-(* Whatever bytes arrive, the connection handler ends by closing the connection: no nil
-   dereference, no impossible allocation, and the model's recursion budget is never the reason. *)
-Theorem C35_no_crash : forall decode st,
-  (forall p c, decode p = Some c -> term_of (cm_type c) <> None) ->
-  forall input, r_end (mux_serve decode st input) = EClosed.
+(* Whatever bytes arrive and whatever the decoder makes of them — the command type is ANY integer
+   (Z), negative and out-of-enum values included, dispatched by the total function [type_name] —
+   the connection handler ends by closing the connection: no nil dereference, no impossible
+   allocation, no type without a handler, and the model's recursion budget is never the reason. *)
+Theorem C35_no_crash : forall decode st input, r_end (mux_serve decode st input) = EClosed.
 Proof. exact no_crash. Qed.
 Print Assumptions C35_no_crash.
 
@@ -24,8 +24,8 @@ Print Assumptions C35_alloc_bounded.
    `partial`: HIGHWATER_MARK_UPDATE excluded (C35_state_change_refuted). *)
 Theorem C35_no_state_change_without_perm_partial : forall decode st input name c,
   In (name, c) (r_calls (mux_serve decode st input)) ->
-  meta_call name = false -> cm_type c <> hwm ->
-  exists g, required (cm_type c) = Some g /\
+  meta_call name = false -> type_name (cm_type c) <> hwm ->
+  exists g, required (type_name (cm_type c)) = Some g /\
             holds (authz st (cm_user c) (cm_pass c)) (cm_voter c) g = true.
 Proof. exact no_state_change_without_perm_partial. Qed.
 Print Assumptions C35_no_state_change_without_perm_partial.
